@@ -20,6 +20,13 @@ REQUIRED = [
     "DaeVerif.C11.Props.build_fails_only_as_documented",
     "DaeVerif.C11.Props.trie_hasPrefix_eq_spec",
     "DaeVerif.C11.Props.bitlist_get_append",
+    "DaeVerif.C11.Props.bitlist_get_set",
+    "DaeVerif.C11.Props.countZeros_is_rank0",
+    "DaeVerif.C11.Props.selectIthOne_is_select1",
+    "DaeVerif.C11.Props.domain_matcher_correct",
+    "DaeVerif.C11.Props.matcher_trie_path_eq_contract",
+    "DaeVerif.C11.Props.normName_case_insensitive",
+    "DaeVerif.C11.Props.normName_trailing_dot",
 ]
 
 STREAMS = [
